@@ -376,7 +376,6 @@ func (p *Process) waitUntilReady() bool {
 		return true
 	}
 	log.Error().Msgf("Process %s was aborted and won't become ready", p.getName())
-	p.setExitCode(1)
 	return false
 
 }
